@@ -1,0 +1,36 @@
+//go:build verif
+
+// Contracts for govc (see /verif/DESIGN.md). Comment-only file.
+
+package ordset
+
+//@ pragma strings ordered
+//@ property C39
+
+//@ spec sortedLeaf(leaf *leafNode) bool = forall i, j :: 0 <= i && i < j && j < leaf.size ==> leaf.slots[i] < leaf.slots[j]
+//@ spec wfLeaf(leaf *leafNode) bool = 0 <= leaf.size && leaf.size <= 128 && sortedLeaf(leaf)
+//@ spec member(leaf *leafNode, x string) bool = exists k :: 0 <= k && k < leaf.size && leaf.slots[k] == x
+
+//@ func (leaf *leafNode) searchBinary(key) (r)
+//@   requires leaf != nil && wfLeaf(leaf)
+//@   ensures  0 <= r && r <= leaf.size
+//@   ensures  forall k :: 0 <= k && k < r ==> leaf.slots[k] < key
+//@   ensures  forall k :: r <= k && k < leaf.size ==> leaf.slots[k] >= key
+//@   loop 0 invariant 0 <= i && i <= j && j <= leaf.size
+//@   loop 0 invariant forall k :: 0 <= k && k < i ==> leaf.slots[k] < key
+//@   loop 0 invariant forall k :: j <= k && k < leaf.size ==> leaf.slots[k] >= key
+//@   loop 0 decreases j - i
+
+// insert: the post-condition is over the whole view, index-wise: p is the
+// position of key afterwards; every old element keeps its relative place.
+//@ func (leaf *leafNode) insert(key) (ok)
+//@   requires leaf != nil && wfLeaf(leaf)
+//@   modifies leaf.slots, leaf.size
+//@   ghost p int = i
+//@   ensures  wf: wfLeaf(leaf)
+//@   ensures! full: !ok <==> old(leaf.size) >= 128
+//@   ensures! full_unchanged: !ok ==> leaf.size == old(leaf.size) && forall k :: 0 <= k && k < leaf.size ==> leaf.slots[k] == old(leaf.slots[k])
+//@   ensures! member: ok ==> 0 <= p && p < leaf.size && leaf.slots[p] == key
+//@   ensures! size: ok ==> leaf.size == old(leaf.size) || leaf.size == old(leaf.size) + 1
+//@   ensures! existed: ok && leaf.size == old(leaf.size) ==> forall k :: 0 <= k && k < leaf.size ==> leaf.slots[k] == old(leaf.slots[k])
+//@   ensures! keeps: ok && leaf.size == old(leaf.size) + 1 ==> forall k :: 0 <= k && k < old(leaf.size) ==> leaf.slots[k < p ? k : k + 1] == old(leaf.slots[k])
